@@ -5,7 +5,7 @@ import random
 
 from .. import fmtdrv
 from ..core import unhexs
-from ..gen import TYPES, uni_text, uni_char, enc_msg, rand_ctx_bytes, CATS, FILES, FUNCS
+from ..gen import TYPES, uni_text, uni_char, enc_msg, rand_ctx_bytes, CATS, FILES, FUNCS, UInt, ULongLong
 
 LEVEL = "exploration"
 BUILTIN = ["type", "line", "file", "function", "category", "message", "time", "threadId"]
@@ -17,9 +17,14 @@ def gen_value(rnd, depth=0):
         k = rnd.random()
         if k < 0.5:
             return uni_text(rnd, 20)
-        if k < 0.7:
+        if k < 0.62:
             return rnd.choice([0, 1, -1, 2 ** 53, -(2 ** 53), 2 ** 31, -(2 ** 31) - 1, rnd.randint(-2 ** 53, 2 ** 53),
                                rnd.randint(-1000, 1000)])
+        if k < 0.7:
+            # the same numbers held in the unsigned integer types of QVariant
+            if rnd.random() < 0.5:
+                return UInt(rnd.choice([0, 1, 2 ** 31 - 1, 2 ** 31, 2 ** 32 - 1, 3000000000, rnd.randint(0, 2 ** 32 - 1)]))
+            return ULongLong(rnd.choice([0, 2 ** 32, 2 ** 53, rnd.randint(0, 2 ** 53)]))
         if k < 0.8:
             return rnd.random() < 0.5
         if k < 0.93:
@@ -66,7 +71,7 @@ def gen_case(rnd):
     # how the application obtains the formatter: direct construction, the fluent formatToJson(compact) of a pipeline (many
     # pipelines of both modes live in one driver process, in random order), or the shared default (indented) instance
     r = rnd.random()
-    m["how"] = 0 if r < 0.55 else (1 if r < 0.92 or compact else 2)
+    m["how"] = 0 if r < 0.4 else (3 if r < 0.6 else (1 if r < 0.92 or compact else 2))
     return compact, m
 
 
@@ -203,7 +208,7 @@ def run(ctx):
         if sig[2] or sig[3]:
             distinct.add(sig)
         if len(samples) < 3 and sig[2] and sig[3] and i % 501 == 0:
-            samples.append({"compact": c, "obtained": ["constructor", "formatToJson()", "instance()"][m.get("how", 0)], "message": m["text"][:80], "attributes": [[k, v] for k, v in m["attrs"]][:4],
+            samples.append({"compact": c, "obtained": ["constructor", "formatToJson()", "instance()", "long-lived instance"][m.get("how", 0)], "message": m["text"][:80], "attributes": [[k, v] for k, v in m["attrs"]][:4],
                             "output": unhexs(results[str(i)][0])[:300]})
     cov = {
         "evaluations": n,
@@ -212,7 +217,8 @@ def run(ctx):
                 "U+2028/9, U+FFFE/F, astral planes, 64 KiB texts; attribute names arbitrary (not shadowing built-ins); values "
                 "string/int(|n|<=2^53)/bool/double k/8/invalid/nested lists+maps depth<=4; null and empty source-location pointers; "
                 "compact and indented; formatter constructed directly, obtained through SimplePipeline::formatToJson(compact) with pipelines "
-                "of both modes created in random order within one process, or the shared default instance; non-trivial = text has a special class or there is at least one attribute; distinct by "
+                "of both modes created in random order within one process, the shared default instance, or one long-lived instance per mode that formats many records of the process; source-location strings "
+                "live in caller buffers that are reused for every message; non-trivial = text has a special class or there is at least one attribute; distinct by "
                 "(mode, text classes, attribute value shapes, null pointers, type)",
         "samples": samples or [{"message": cases[0][1]["text"]}],
     }
